@@ -995,7 +995,9 @@ func (w *World) Teardown() []string {
 	w.Backend.Close(time.Second)
 	w.Settle()
 	_ = w.Server.Close()
-	w.Engine.Close()
+	// in a goroutine: an Engine.Close that never returns shows up in the census
+	// below with its stack instead of hanging the driver
+	go w.Engine.Close()
 	time.Sleep(time.Hour)
 	w.Settle()
 	return core.Leaked()
